@@ -614,21 +614,28 @@ func (c *codegen) ensure(k fnKey, at ast.Node) {
 		c.fail(at, "recursive call of %s", fnName(k))
 	}
 	c.busy[k] = true
-	saved, savedPhase, savedPhase3 := c.cur, c.phase2, c.phase3
+	saved, savedPhase, savedPhase3, savedPhase4 := c.cur, c.phase2, c.phase3, c.phase4
+	defer func() { c.phase4 = savedPhase4 }()
 	var out fnOut
-	if c.white3Set[k] {
+	if c.white4Set[k] {
+		if !c.phase4 {
+			c.fail(at, "internal error: function %s of the fourth part needed by an earlier part", fnName(k))
+		}
+		out = c.function2(k)
+	} else if c.white3Set[k] {
 		if !c.phase3 {
 			c.fail(at, "internal error: function %s of the third part needed by an earlier part", fnName(k))
 		}
+		c.phase4 = false
 		out = c.function2(k)
 	} else if c.white2Set[k] {
 		if !c.phase2 {
 			c.fail(at, "internal error: function %s of the second part needed by the first part", fnName(k))
 		}
-		c.phase3 = false
+		c.phase3, c.phase4 = false, false
 		out = c.function2(k)
 	} else {
-		c.phase2, c.phase3 = false, false
+		c.phase2, c.phase3, c.phase4 = false, false, false
 		out = c.function(k)
 	}
 	c.cur, c.phase2, c.phase3 = saved, savedPhase, savedPhase3
